@@ -37,7 +37,8 @@ EXTENDS Integers, Sequences, FiniteSets, TLC, Json
 
 CONSTANTS MaxSegs, Seps, Shape, Emit     \* Seps: the separators used, a subset of AllSeps
 
-Code == {"kwU", "kwL", "kwM", "ident", "num", "comma", "star", "eq", "lparen", "rparen"}
+\* (hashOp: an operator spelled with '#' - in this language '#' starts no comment)
+Code == {"kwU", "kwL", "kwM", "ident", "num", "comma", "star", "eq", "lparen", "rparen", "hashOp"}
 Protected == {"strKw", "strMulti", "strMultiCrlf", "strEsc", "strBs", "qidKw", "btKw", "cmtLine", "cmtPlain", "cmtBlockOne", "cmtBlock", "dollarMulti",
               "cmtBsq", "dollarBsq"}     \* a backslash before a quote OUTSIDE a string literal (comment, dollar-quoted body): nothing special
 MultiLine == {"strMulti", "strMultiCrlf", "cmtBlock", "dollarMulti"}      \* strMultiCrlf: the same with CR-LF line ends inside
